@@ -54,6 +54,10 @@ TEXT = {
         "level": "rapid state machine over bucket names x URLs (in-memory, two directories) with OpenBucket in each mode, Close, repeated Close and CloseAndDelete on any handle ever returned; after every step a write+read probe on every handle, cross-handle visibility, GetBucketNames and the database files are compared with a registry model. Plus concurrent open/probe/close loops of 2-6 goroutines with seeded scheduling noise on an already-created bucket.",
         "design_ref": "DESIGN.md 4 (C13)", "note": "What calls on handles of a deleted bucket return is a don't-care (any error). Two bucket names sharing one directory are not generated. The concurrent part samples schedules; it is not exhaustive.", "technique": "stateful property-based testing against a registry model; randomized concurrent stress with invariants",
     },
+    "C15": {
+        "level": "Scheduled scripts: a checkpointed, resumable feed is started, stopped by its terminator and restarted several times while writers mutate documents; stops are placed while a writer is held between commit and post and while the feed callback is held (events queued, not delivered), feed starts are held between backfill and registration; a final dump run resumes from the checkpoint. Oracle: the union of events over all runs contains the final version of every document; after each stop the checkpoint is not ahead of what that run's callback received and never goes backwards.",
+        "design_ref": "DESIGN.md 2.5, 4 (C15)", "note": "Interleavings are those expressible at the verif hook points (commit->post, backfill->registration) plus a gate in the feed callback; not arbitrary preemption points.", "technique": "property-based testing of generated schedules (deterministic parking scheduler on hook points)",
+    },
     "C17": {
         "level": "Generated histories over all mutating entry points: after each successful mutation the revision number (read through $document.revid, $document, live RevNo and backfill RevNo) is previous+1, 1 on creation or re-creation after purge, unchanged on failure.",
         "design_ref": "DESIGN.md 4 (C17)", "note": SEQ_NOTE, "technique": SEQ_TECH,
